@@ -87,11 +87,15 @@ func parseCIface(lex *lexer.PeekingLexer) (CIface, error) {
 // of an optional / repeated group, where the attempt runs on a branch of the lexer that is dropped on "no match".
 type PIdent struct {
 	W string
+	// written only on the way to "no match": every attempt gets a receiver of its own, so a value that is part of a result
+	// never carries it
+	Note string
 }
 
 func (p *PIdent) Parse(lex *lexer.PeekingLexer) error {
 	t := lex.Next()
 	if t.EOF() || identType == 0 || t.Type != identType {
+		p.Note = "gave up on " + t.Value
 		return participle.NextMatch
 	}
 	p.W = t.Value
@@ -416,6 +420,10 @@ func canon(names map[reflect.Type]string, v reflect.Value, toks map[lexer.Positi
 			return
 		}
 		if v.Type() == reflect.TypeOf(PIdent{}) {
+			if note := v.Field(1).String(); note != "" {
+				fmt.Fprintf(sb, "PIdent{W=%q;LEFTOVER=%q}", v.Field(0).String(), note)
+				return
+			}
 			fmt.Fprintf(sb, "PIdent{W=%q}", v.Field(0).String())
 			return
 		}
@@ -1069,7 +1077,34 @@ func lookaheadBig(args []string) error {
 		})
 		fmt.Printf("flat\t%d\t%s\n", k, res)
 	}
+	// a parser for one production keeps the lookahead of the parser it was derived from (unlimited included)
+	for _, k := range []int{1, 2, 3, participle.MaxLookahead, -1, -2} {
+		res := runGuardedFor(60*time.Second, func() string {
+			root, err := participle.Build[prodLARoot](participle.UseLookahead(k))
+			if err != nil {
+				return "builderr " + err.Error()
+			}
+			sub, err := participle.ParserForProduction[prodLACall](root)
+			if err != nil {
+				return "builderr " + err.Error()
+			}
+			v, err := sub.ParseString("", "f ( )")
+			if err != nil {
+				return "err"
+			}
+			return fmt.Sprintf("ok Star=%q Plain=%q", v.Star, v.Plain)
+		})
+		fmt.Printf("production\t%d\t%s\n", k, res)
+	}
 	return nil
+}
+
+type prodLACall struct {
+	Star  string `(  @Ident "(" "*" ")"`
+	Plain string ` | @Ident "(" ")" )`
+}
+type prodLARoot struct {
+	Calls []*prodLACall `( @@ ";" )*`
 }
 
 func init() { commands["leak-big"] = leakBig }
